@@ -132,7 +132,14 @@ impl Property for C14 {
     fn exhaustive_only(&self, _t: Tier) -> bool {
         false
     }
+    fn fuzz(&self) -> Option<crate::FuzzSpec> {
+        Some(crate::FuzzSpec { label: "c14-long", max_len: 3000, runs: 900 })
+    }
     fn run(&self, ctx: &mut Ctx) {
+        'enumerations: {
+        if ctx.fuzzing() {
+            break 'enumerations;
+        }
         let max_len = ctx.tier.pick(6, 8);
         let mut local: HashSet<u64> = HashSet::new();
         let mut total = 0u64;
@@ -211,6 +218,7 @@ impl Property for C14 {
         }
         ctx.space("documents over the 8-symbol class-edge alphabet", total2);
         ctx.stats.nt_disjoint += local.len() as u64;
+        }
         let cases = ctx.tier.pick(2_000, 50_000);
         ctx.run_streams("c14-long", cases, 3000, |ctx, bytes| {
             let mut c = Choices::new(bytes);
